@@ -112,6 +112,42 @@ def rule_f2(chk: Check, F, thorough: bool):
     w = an.witness_intersection(["lb", "dbl"])
     chk.require(w is None, "F2-scan-pattern", "StartLBrace:doubled-brace", repo.TOKENIZE,
                 f"the brace search accepts {w!r}, ending at the second brace of `{{{{`: a doubled (escaped) brace opens a replacement field")
+    # ... and ends at the *first* brace that opens a field.  The search is a lazy repetition, so this is a fact about leftmost-
+    # shortest matching, not about the pattern's language: decided by running the folded pattern (Python's own `re`) over every
+    # word of length <= 6 over {a, {, }, backslash, N} — stepping over `\N{...}` as an escape is right for ordinary f-strings
+    # only; in a raw one the `{` after `\N` opens a field
+    import itertools as _it
+    import re as _re
+    chk.count("F2-scan-pattern")
+    pat = _re.compile(lb, _re.S)
+    wbad = None
+    for n in range(1, 7):
+        for tup in _it.product("a{}\\N", repeat=n):
+            w = "".join(tup)
+            if "{{" in w:
+                continue        # doubled braces are the business of `StartLBrace:doubled-brace`
+            first = None
+            i = 0
+            while i < len(w):
+                if w[i] == "{":
+                    if i + 1 < len(w) and w[i + 1] == "{":
+                        i += 2
+                        continue
+                    first = i
+                    break
+                i += 1
+            if first is None:
+                continue
+            m = pat.match(w)
+            if m is None or m.end() != first + 1:
+                wbad = (w, m.end() if m else None, first + 1)
+                break
+        if wbad:
+            break
+    chk.require(wbad is None, "F2-scan-pattern", "StartLBrace:first-brace", repo.TOKENIZE,
+                f"on {wbad[0] if wbad else ''!r} the brace search ends at {wbad[1] if wbad else ''} instead of {wbad[2] if wbad else ''}, right after the "
+                f"first `{{` that is not doubled: the field that brace opens becomes literal text (in a raw f-string `\\N{{x}}` is the text "
+                f"`\\N` followed by the field `{{x}}`)")
     rb = F.need("EndRBrace")
     chk.count("F2-scan-pattern")
     an = rx.Analysis({"rb": rb, "two": r"(?:.|\n)*\}(?:.|\n)*\}"}, exhaustive=False)
